@@ -462,6 +462,77 @@ pub fn exec_case<S: Sch>(case: &Case, out: &mut String, with_acc: bool) {
         };
         let op = get("op").to_string();
         match op.as_str() {
+            "teardown" => {
+                // the same calls in an ordinary context and from the destructor of a thread-local of
+                // a thread that is exiting (guard installed before / after the library was first used
+                // on that thread): decode, verify, text round trip, update, build
+                let mut enc = Vec::new();
+                e.encode(&mut enc);
+                let calls = move |e: &Enr<HKey<S::K>>, key: &HKey<S::K>, enc: &[u8]| -> String {
+                    let f = |r: Option<bool>| match r {
+                        None => 'p',
+                        Some(true) => '1',
+                        Some(false) => '0',
+                    };
+                    let mut o = String::new();
+                    o.push(f(guard(|| {
+                        let mut b: &[u8] = enc;
+                        Enr::<HKey<S::K>>::decode(&mut b).is_ok()
+                    })));
+                    o.push(f(guard(|| e.verify())));
+                    o.push(f(guard(|| e.to_base64().parse::<Enr<HKey<S::K>>>().is_ok())));
+                    o.push(f(guard(|| {
+                        let mut c = e.clone();
+                        c.set_udp4(9, key).is_ok()
+                    })));
+                    o.push(f(guard(|| Enr::<HKey<S::K>>::builder().tcp4(1).build(key).is_ok())));
+                    o.push(f(guard(|| format!("{e}").len() > 4 && format!("{e:?}").len() > 4)));
+                    o
+                };
+                let key = &keys[0];
+                let normal = calls(e, key, &enc);
+                let _ = key.take_log();
+                let mut outs: Vec<String> = Vec::new();
+                for (first_use, use_after) in [(false, false), (true, false), (false, true), (true, true)] {
+                    let e2 = e.clone();
+                    let k2 = match S::from_secret(&case.keys[0]) {
+                        Some(k) => HKey::new(k),
+                        None => break,
+                    };
+                    let enc2 = enc.clone();
+                    let e3 = e.clone();
+                    let k3 = match S::from_secret(&case.keys[0]) {
+                        Some(k) => HKey::new(k),
+                        None => break,
+                    };
+                    let enc3 = enc.clone();
+                    let result = std::sync::Arc::new(std::sync::Mutex::new(String::from("-")));
+                    let r2 = result.clone();
+                    let h = std::thread::spawn(move || {
+                        if first_use {
+                            // the library's own thread-locals (if any) come into being first
+                            let _ = calls(&e2, &k2, &enc2);
+                        }
+                        TEARDOWN.with(|t| {
+                            *t.borrow_mut() = Some(TeardownGuard(Some(Box::new(move || {
+                                let s = calls(&e2, &k2, &enc2);
+                                *r2.lock().unwrap() = s;
+                            }))));
+                        });
+                        if use_after {
+                            // ... or only after the guard was installed: they are then destroyed
+                            // before the guard is (destructors run last-registered-first)
+                            let _ = calls(&e3, &k3, &enc3);
+                        }
+                    });
+                    let joined = h.join().is_ok();
+                    let got = result.lock().map(|g| g.clone()).unwrap_or_else(|_| "poisoned".into());
+                    outs.push(if joined { got } else { format!("{got}!") });
+                }
+                let _ = key.take_log();
+                writeln!(out, "out res=ok normal={normal} td={}", outs.join(",")).unwrap();
+                continue;
+            }
             "snap" => {
                 slots.insert(get("slot").to_string(), e.clone());
                 writeln!(out, "out res=ok").unwrap();
@@ -767,6 +838,12 @@ pub fn exec_case<S: Sch>(case: &Case, out: &mut String, with_acc: bool) {
             Some(Err(x)) => writeln!(out, "out res=err:{} signlog={log}", err_str(&x)).unwrap(),
             Some(Ok(r)) => writeln!(out, "out res=ok ret={r} signlog={log}").unwrap(),
         }
+        if get("quiet") == "1" {
+            // nobody looks at the record's bytes between this step and the next
+            out.push_str(&rec_line_quiet(e));
+            out.push('\n');
+            continue;
+        }
         out.push_str(&rec_line(e));
         out.push('\n');
         if with_acc {
@@ -804,4 +881,20 @@ impl<I: Iterator> Iterator for Hinted<I> {
     fn size_hint(&self) -> (usize, Option<usize>) {
         (self.lo, self.hi)
     }
+}
+
+
+/// runs a closure when the thread-local that holds it is destroyed (at thread exit)
+pub struct TeardownGuard(Option<Box<dyn FnOnce()>>);
+
+impl Drop for TeardownGuard {
+    fn drop(&mut self) {
+        if let Some(f) = self.0.take() {
+            f()
+        }
+    }
+}
+
+thread_local! {
+    static TEARDOWN: std::cell::RefCell<Option<TeardownGuard>> = const { std::cell::RefCell::new(None) };
 }
